@@ -3,7 +3,7 @@ from vf.common import Harness
 
 LEVEL = "model_checking"
 TECHNIQUE = "CBMC bounded symbolic execution of rules.c/scanner.c/object.c/hash.c define & lookup functions and the VM's OBJ_LOAD/OBJ_VALUE over a symbolic operation sequence, against a 3-level map model"
-ASSUMPTIONS = ["2 externals + 1 unknown identifier, types integer/boolean/float symbolic; strings handled in H4",
+ASSUMPTIONS = ["2 externals whose identifiers are prefix-related (\"ab\", \"a\"); definitions use ANY identifier of length 0..3 over {a,b} (empty, prefixes, extensions, unknown), types integer/boolean/float symbolic; strings handled in H4",
                "operation order skeleton fixed (define, create, define, create, scanner-define, define, read all), all arguments symbolic",
                "integer and boolean are mutually compatible at scanner level (both are integer objects)", "NaN float values excluded (read back as undefined by design)"]
 LEVEL_TEXT = "Bounded model checking of the real define/create/lookup code against a three-level environment model, all identifiers/types/values symbolic."
@@ -17,7 +17,7 @@ def harnesses(ctx, tier):
         for tb in (1, 2, 3):
             hs.append(Harness(name="H2_three_level_env_%s_%s" % (names[ta], names[tb]), src="c20/env3.c", defines=["-DVF_TA=%d" % ta, "-DVF_TB=%d" % tb],
                     unwind=10, timeout=600, flags=["--object-bits", "10"],
-                    unwind_funcs={"strcmp": 3, "strlen": 3, "yr_hash": 3, "hash": 3, "main": 4, "yr_arena_ptr_to_ref": 3, "yr_hash_table_create": 66, "yr_hash_table_clean": 66, "yr_hash_table_destroy": 66},
+                    unwind_funcs={"strcmp": 5, "strlen": 5, "sym_def": 5, "yr_hash": 3, "hash": 3, "main": 4, "yr_arena_ptr_to_ref": 3, "yr_hash_table_create": 66, "yr_hash_table_clean": 66, "yr_hash_table_destroy": 66},
                     desc="rules-define / scanner-create / scanner-define sequence with symbolic ids, types, values (declared types %s,%s); values read back on both scanners" % (names[ta], names[tb]),
                     bounds="2 variables (+1 unknown id), 2 scanners, 4 define operations", functions=["yr_rules_define_*_variable", "yr_scanner_create", "yr_scanner_define_*_variable", "yr_object_from_external_variable", "yr_object_set_integer/float", "yr_hash_table_add/lookup"]))
     return hs
